@@ -184,6 +184,8 @@ def _swept_before(prog, probe, trace_local, blk):
 
 def run(ctx):
     prog = ctx.prog
+    from .C11 import shape_wrappers
+    shape_wrappers(ctx, prog)
     ctx.rule('R12.1', 'joint vectors from the raw (not collision-filtered) kinematics must pass a collides()==false edge before reaching Ok(trace)')
     ctx.rule('R12.2', 'the start configuration given to plan() is in the provenance of the returned trace')
     ctx.rule('R12.3', 'every public field of Cartesian is read on a path from plan(); include_linear_interpolation controls LIN_INTERP waypoints')
